@@ -21,7 +21,7 @@ RULE = ("seeded programs (as C16 plus fan-out, integer/bool intermediates, list 
 ASSUMPTIONS = ["the captured GraphModule re-executed by a plain fx.Interpreter reproduces the tensors that flowed (deterministic ops only: dropout p=0)"]
 IMPORTS = ["unit_scaling.transforms._track_scales", "unit_scaling.utils", "unit_scaling.transforms"]
 REQUIRED_MONITORS = ["tracked:bit-compared", "metrics:nodes-compared-fwd", "metrics:nodes-compared-bwd", "contract:Metrics.from_tensor",
-                     "nonfloat:nodes-checked", "analyse_module:checked", "metrics:no-gradient-nodes"]
+                     "nonfloat:nodes-checked", "analyse_module:checked", "analyse_module:annotations-parsed", "metrics:no-gradient-nodes"]
 REQUIRED_REACH = {"transforms/_track_scales.py": ["Metrics.from_tensor", "ScaleTrackingAutogradFunction.forward", "ScaleTrackingAutogradFunction.backward",
                                                   "ScaleTrackingInterpreter.run_node", "ScaleTrackingBackend.__call__", "track_scales", "_get_tracking_meta"],
                   "utils.py": ["ScaleTracker.forward", "ScaleTracker.backward", "ScaleTrackingInterpreter.run_node", "_record_scales", "analyse_module"]}
@@ -348,7 +348,14 @@ def run_analyse(case, ctx) -> None:
     if len(prog["outputs"]) != 1 or any(i["kind"] != "float" for i in prog["inputs"]) or any(o["op"] in ("sdpa", "iadd") for o in prog["ops"]):
         ctx.skip("program outside analyse_module's traceable subset")
         return
+    if rng.random() < 0.6:
+        # a constant parameter: its forward std is exactly 0 (a number, not "nothing recorded")
+        prog["params"].append({"name": "p900", "shape": [prog["dims"]["D"]], "scale": 1.0, "const": 0.5})
+        last = prog["outputs"][0]
+        prog["ops"].append({"out": "v901", "op": "mul", "in": [last, "p900"], "kw": {}})
+        prog["outputs"] = ["v901"]
     m, src = progs.build_module(prog, case["seed"])
+    ctx.sample({"emitted_source": src, "kind": "analyse_module"})
     inputs = progs.make_inputs(prog, case["seed"] + 5)
     x = inputs[0].detach().clone().requires_grad_(True)
     captured: Dict[str, Any] = {}
@@ -407,8 +414,15 @@ def run_analyse(case, ctx) -> None:
                 if not abs(pair.backward - want) <= 2e-4 * abs(want) + 1e-6:
                     ctx.violation("C18:analyse_module-backward-scale-is-not-the-std-of-the-total-gradient", f"{name}: {pair.backward!r} vs {want!r}", source=src)
     # printed digits
-    for mt in re.finditer(r"(\w+) = .*;  \(-> ([0-9.e+-]+|n/a), <- ([0-9.e+-]+|n/a)\)", code):
+    for mt in re.finditer(r"(\w+) = .*;  \(-> ([0-9.e+-]+|n/a|nan), <- ([0-9.e+-]+|n/a|nan)\)", code):
         name, f, b = mt.group(1), mt.group(2), mt.group(3)
+        ctx.count("analyse_module:annotations-parsed")
+        # "n/a" means "nothing recorded": a tensor that flowed (resp. received a gradient) must show a number, also when that number is 0
+        if name in cap.fwd and f == "n/a":
+            ctx.violation("C18:analyse_module-reports-no-forward-scale-for-a-tensor-that-flowed", f"{name}: printed '-> n/a' for a tensor of {cap.fwd[name].numel()} elements",
+                          source=src)
+        if name in cap.bwd and b == "n/a":
+            ctx.violation("C18:analyse_module-reports-no-gradient-for-a-tensor-that-received-one", f"{name}: printed '<- n/a' although a gradient reached it", source=src)
         if name in cap.fwd and f != "n/a" and cap.fwd[name].numel() > 1:
             want = float(cap.fwd[name].double().std())
             if f"{want:.3}" != f and not abs(float(f) - want) <= 6e-3 * abs(want) + 1e-6:
